@@ -29,8 +29,10 @@ func Upto(t *rapid.T, label string, n int) int {
 // keywords of the URL grammar.
 var reserved = map[string]bool{"id": true, "type": true, "meta": true, "relationships": true, "": true}
 
-var nameInner = []rune("abcrA1-_")
-var nameEdge = []rune("abcrA1")
+// (JSON:API member names may also hold any character from U+0080 up: a
+// letter and a symbol stand for those, drawn less often than the ASCII ones.)
+var nameInner = []rune("abcrA1-_abcrA1-_abcrA1-_é€")
+var nameEdge = []rune("abcrA1abcrA1abcrA1é€")
 
 // Name draws a JSON:API member name: [a-z0-9] at both ends, '-' and '_' allowed
 // inside, length 1..5, over a deliberately tiny alphabet so that duplicates,
@@ -82,12 +84,13 @@ func NamePool(t *rapid.T, n int, label string) []string {
 			s = base + ext
 
 			if ext == "" {
-				s = base + string(base[len(base)-1])
+				rs := []rune(base)
+				s = base + string(rs[len(rs)-1])
 			}
 		case 5: // an earlier name in another letter case (names are case-sensitive)
 			base := rapid.SampledFrom(pool).Draw(t, label+"-base")
-			if up := strings.ToUpper(base); up != base {
-				s = up[:1] + base[1:]
+			if rs, up := []rune(base), []rune(strings.ToUpper(base)); len(up) == len(rs) && string(up) != base {
+				s = string(up[:1]) + string(rs[1:])
 			} else {
 				s = strings.ToLower(base)
 			}
@@ -96,8 +99,8 @@ func NamePool(t *rapid.T, n int, label string) []string {
 			s = rapid.SampledFrom([]string{"a", "r", "b1", "c-", "1_"}).Draw(t, label+"-front") + base
 		case 2: // prefix of an earlier name
 			base := rapid.SampledFrom(pool).Draw(t, label+"-base")
-			if len(base) > 1 {
-				s = base[:rapid.IntRange(1, len(base)-1).Draw(t, label+"-cut")]
+			if rs := []rune(base); len(rs) > 1 {
+				s = string(rs[:rapid.IntRange(1, len(rs)-1).Draw(t, label+"-cut")])
 				s = strings.TrimRight(s, "-_")
 			}
 		default:
